@@ -18,6 +18,9 @@ UPD = ("PreUpdate", "Update", "PostUpdate")
 FAMILY = set(["deep" + x for x in REACT] + ["wide" + x for x in REACT] + ["execute"])
 
 TEXT = {
+    "C05.config-order": "the reaction order chosen in the configuration reaches the machine: Config::BottomUpReactions sets ReactOrder = BottomUp, the default is "
+                        "TopDown, and every other option alias (ContextT, ManualActivation, RankT, UtilityT, RandomT, SubstitutionLimitN, TaskCapacityN, "
+                        "PayloadT) forwards ReactOrder unchanged (type-level witness, static_asserts decided by clang -fsyntax-only)",
     "C05.phases": "R_::update: deepPreUpdate < deepUpdate < deepPostUpdate < (deepUpdatePlans < clearStatuses) < processRequest; "
                   "R_::react: deepPreReact < _consumed:=false < deepReact < _consumed:=false < deepPostReact < (plans) < processRequest; "
                   "R_::query: const, exactly one deepQuery on a ConstControl, no processRequest",
@@ -32,7 +35,7 @@ TEXT = {
                      "Head::X before Head::wideX for PostUpdate, PostReact, Exit; A_<multi>::wideX: First before Rest resp. Rest before First",
 }
 
-MIN_INSTANCES = {"C05.active-prong": 7, "C05.phases": 3, "C05.region-order": 6 + 8 + 7, "C05.consume": 12, "C05.injection": 10 + 10}
+MIN_INSTANCES = {"C05.config-order": 6, "C05.active-prong": 7, "C05.phases": 3, "C05.region-order": 6 + 8 + 7, "C05.consume": 12, "C05.injection": 10 + 10}
 
 
 def declare(ctx):
@@ -366,3 +369,9 @@ def check_injection(ctx, F):
             if seqs != {expect}:
                 ctx.violation("C05.injection", site, "%s (%s)" % (site, F.floc(fid)),
                               "injection order is %s, expected %s" % (sorted(seqs), list(expect)), {"found": sorted(seqs)})
+
+
+def final(ctx):
+    from . import cfgwit
+    cfgwit.run(ctx, "C05.config-order", only_options={"ReactOrder"})
+
